@@ -24,7 +24,7 @@ namespace GeographicLib {
     sig = _earth.Inverse(lat0, lon0, lat, lon, s, azi0, azi, m);
     Math::sincosd(azi0, x, y);
     x *= s; y *= s;
-    rk = !(sig <= eps_) ? m / s : 1;
+    rk = !(sig <= eps_) && s != 0 ? m / s : 1;
   }
 
   void AzimuthalEquidistant::Reverse(real lat0, real lon0, real x, real y,
@@ -35,7 +35,7 @@ namespace GeographicLib {
       s = hypot(x, y);
     real sig, m;
     sig = _earth.Direct(lat0, lon0, azi0, s, lat, lon, azi, m);
-    rk = !(sig <= eps_) ? m / s : 1;
+    rk = !(sig <= eps_) && s != 0 ? m / s : 1;
   }
 
 } // namespace GeographicLib
